@@ -2,7 +2,7 @@
    lemmas) and followed by Print Assumptions.  All theorems are about the [fixed] variant of the
    model (the code with pending_fixes C10_1..3 applied); the Examples at the end exhibit, inside
    Coq, how the [asis] variant (the code as first found) violates the same statements. *)
-From V Require Import Common.NumFacts C10.Model C10.Proofs C10.ProofsDeep.
+From V Require Import Common.NumFacts C10.Model C10.ModelCfg C10.ModelEll C10.Proofs C10.ProofsDeep C10.ProofsCfg C10.ProofsEll.
 
 (* lookup_pure: whatever the earlier lookups, writes, index_overlap / mix_from calls were -- any
    number of them, so that both bounded caches have filled and evicted -- each of the three cached
@@ -588,4 +588,259 @@ Example C10_deep_expand_nonvacuous :
 Proof.
   split; [repeat constructor; simpl; intuition discriminate|]. split; [simpl; intuition discriminate|].
   repeat split; vm_compute; reflexivity.
+Qed.
+
+(* ------------------------------------------------------------------ deepening 2: configuration calls BETWEEN look-ups, SplitIndexer
+   (model: ModelCfg.v; lemmas: ProofsCfg.v) *)
+
+(* set_alias / define_group made at any point of a history, each defining a NEW name that is not a phase letter
+   (safe_cop, checked in the state the call is made in): afterwards every cached look-up -- chemicals._get_index_and_kind,
+   MaterialIndexer._get_index_data for every phase set, index_overlap -- still equals the cache-free classification under the
+   CURRENT name table; no cache entry has gone stale *)
+Theorem C10_cfg_lookup_pure : forall c ixs sps hist k, hsafe (mkhs c (mkst [] [] ixs) sps) hist ->
+  let h := hafter c ixs sps hist in
+  let t := tb (hcf h) in
+  snd (chem_lookup t (scc (hst h)) k) = classify_chem t k
+  /\ (forall phs, snd (mat_lookup fixed t phs (scc (hst h)) (mc_get (smc (hst h)) phs) k) = classify_mat fixed t phs k)
+  /\ (forall cas, snd (overlap fixed t (scc (hst h)) cas) = overlap_pure t cas).
+Proof. exact cfg_lookup_pure. Qed.
+Print Assumptions C10_cfg_lookup_pure.
+
+(* ... hence a read after such a history depends on the current table, the data and the key only *)
+Theorem C10_cfg_read_history_independent : forall c ixs sps hist i k, hsafe (mkhs c (mkst [] [] ixs) sps) hist ->
+  let h := hafter c ixs sps hist in
+  snd (hstep fixed h (HOp (OGet i k))) =
+  HB (match nth_error (sixs (hst h)) i with
+      | Some (IC d) => obs_of_read (read_chem (tb (hcf h)) d k)
+      | Some (IM phs rows) => obs_of_read (read_mat fixed (tb (hcf h)) (nchem (hcf h)) phs rows k)
+      | None => BErr EOther
+      end).
+Proof. exact cfg_read_after_history. Qed.
+Print Assumptions C10_cfg_read_history_independent.
+
+(* the step that makes this work: a new name that cannot be read as a phase letter changes no successful classification *)
+Theorem C10_new_name_keeps_classification : forall t n x phs k v, tget t n = None -> len1 n = false ->
+  (forall w, classify_chem t k = Ok w -> classify_chem (tset t n x) k = Ok w) /\
+  (classify_mat_h fixed t phs k = Ok v -> classify_mat_h fixed (tset t n x) phs k = Ok v).
+Proof. intros t n x phs k v Hn Hl. split; [intros w; apply classify_chem_ext; exact Hn|apply classify_mat_h_ext; auto]. Qed.
+Print Assumptions C10_new_name_keeps_classification.
+
+(* WITHOUT the restriction the statement is false for the code as it is: the caches are never invalidated.
+   Full statement (no hsafe): *)
+Definition cfg_read_history_independent_statement : Prop :=
+  forall c ixs sps hist i k,
+  let h := hafter c ixs sps hist in
+  snd (hstep fixed h (HOp (OGet i k))) =
+  HB (match nth_error (sixs (hst h)) i with
+      | Some (IC d) => obs_of_read (read_chem (tb (hcf h)) d k)
+      | Some (IM phs rows) => obs_of_read (read_mat fixed (tb (hcf h)) (nchem (hcf h)) phs rows k)
+      | None => BErr EOther
+      end).
+
+(* witness 1: a group is read, redefined with other members, read again: the old members are summed (3 instead of 12) *)
+Definition ex_chems4 := [mkchem "A_" "A_" [] 16; mkchem "B_" "B_" [] 16; mkchem "C_" "C_" [] 16; mkchem "D_" "D_" [] 16].
+Definition ex_cfg4 : cfg :=
+  match compile ex_chems4 with
+  | Ok c0 => fst (cbuild c0 [CGroup "G1" ["A_"; "B_"] None false])
+  | Err _ => dflt_cfg
+  end.
+Definition redefine_hist : list hop := [HOp (OGet 0 (KStr "G1")); HCfg (CGroup "G1" ["C_"; "D_"] (Some [1; 3]) false)].
+
+Theorem C10_cfg_redefine_refuted : ~ cfg_read_history_independent_statement.
+Proof.
+  intros H. specialize (H ex_cfg4 [IC [1; 2; 4; 8]] [] redefine_hist 0%nat (KStr "G1")).
+  vm_compute in H. discriminate H.
+Qed.
+Print Assumptions C10_cfg_redefine_refuted.
+
+(* the same witness spelled out: with the earlier look-up 3 (members A_, B_), without it 12 (members C_, D_) *)
+Example C10_cfg_redefine_witness :
+  snd (hstep fixed (hafter ex_cfg4 [IC [1; 2; 4; 8]] [] redefine_hist) (HOp (OGet 0 (KStr "G1")))) = HB (BVal (VNum 3)) /\
+  snd (hstep fixed (hafter ex_cfg4 [IC [1; 2; 4; 8]] [] (tl redefine_hist)) (HOp (OGet 0 (KStr "G1")))) = HB (BVal (VNum 12)) /\
+  hcf (hafter ex_cfg4 [IC [1; 2; 4; 8]] [] redefine_hist) = hcf (hafter ex_cfg4 [IC [1; 2; 4; 8]] [] (tl redefine_hist)).
+Proof. vm_compute. repeat split; reflexivity. Qed.
+
+(* witness 2: a phase letter used as a key, then made the alias of a chemical: the row of the phase is still returned
+   (fresh: the flow of the chemical summed over the phases) *)
+Definition phase_alias_hist : list hop := [HOp (OGet 0 (KStr "l")); HCfg (CAlias "A_" "l")].
+Theorem C10_cfg_phase_alias_refuted :
+  let ixs := [IM ["g"; "l"] [[1; 2; 4; 8]; [16; 32; 64; 128]]] in
+  snd (hstep fixed (hafter ex_cfg4 ixs [] phase_alias_hist) (HOp (OGet 0 (KStr "l")))) = HB (BVal (VVec [16; 32; 64; 128])) /\
+  snd (hstep fixed (hafter ex_cfg4 ixs [] (tl phase_alias_hist)) (HOp (OGet 0 (KStr "l")))) = HB (BVal (VNum 17)) /\
+  ~ safe_cop ex_cfg4 (CAlias "A_" "l").
+Proof.
+  split; [vm_compute; reflexivity|]. split; [vm_compute; reflexivity|].
+  intros [_ H]. vm_compute in H. discriminate H.
+Qed.
+Print Assumptions C10_cfg_phase_alias_refuted.
+
+(* non-vacuity of hsafe: new names defined between look-ups that had failed on them; 130 distinct keys in between so that
+   the 100-entry cache has evicted *)
+Definition safe_hist : list hop :=
+  [HOp (OGet 0 (KStr "G3")); HSGet 0 (KTup [KStr "A_"; KStr "G3"]); HCfg (CGroup "G3" ["B_"; "D_"] (Some [1; 3]) false)]
+  ++ map (fun l => HSGet 0 (KTup l)) (firstn 130 (flat_map bit_keys [1; 2; 3; 4; 5; 6; 7]%nat))
+  ++ [HCfg (CAlias "C_" "ay"); HOp (OGet 0 (KStr "ay"))].
+Example C10_cfg_nonvacuous :
+  hsafe (mkhs ex_cfg4 (mkst [] [] [IC [1; 2; 4; 8]]) [[1 # 8; 1 # 4; 1 # 2; 3 # 4]]) safe_hist /\
+  (let h := hafter ex_cfg4 [IC [1; 2; 4; 8]] [[1 # 8; 1 # 4; 1 # 2; 3 # 4]] safe_hist in
+   length (scc (hst h)) = 100%nat /\
+   snd (hstep fixed h (HOp (OGet 0 (KStr "G3")))) = HB (BVal (VNum 10)) /\
+   snd (hstep fixed h (HSGet 0 (KTup [KStr "ay"; KStr "G3"]))) = HSV (SVNest [SI (1 # 2); SG [1 # 4; 3 # 4]])).
+Proof.
+  split.
+  - unfold safe_hist. vm_compute. repeat split; reflexivity.
+  - vm_compute. repeat split; reflexivity.
+Qed.
+
+(* ------------------------------------------------------------------ SplitIndexer *)
+(* split[key] and split[key] = data after any history with safe configuration calls: functions of the current table,
+   the data and the key (the SplitIndexer shares chemicals._index_cache with the flow indexers) *)
+Theorem C10_split_read_history_independent : forall c ixs sps hist i k, hsafe (mkhs c (mkst [] [] ixs) sps) hist ->
+  let h := hafter c ixs sps hist in
+  snd (hstep fixed h (HSGet i k)) =
+  match nth_error (hsp h) i with
+  | Some d => hobs_of_sread (split_read (tb (hcf h)) d k)
+  | None => HSE EOther
+  end.
+Proof. intros c ixs sps hist i k S h. apply split_read_coh. apply hafter_coh. exact S. Qed.
+Print Assumptions C10_split_read_history_independent.
+
+Theorem C10_split_write_history_independent : forall c ixs sps hist i k dt, hsafe (mkhs c (mkst [] [] ixs) sps) hist ->
+  let h := hafter c ixs sps hist in
+  snd (hstep fixed h (HSSet i k dt)) =
+  match nth_error (hsp h) i with
+  | Some d => let (d', e) := split_write (tb (hcf h)) d k dt in HSW e d'
+  | None => HSE EOther
+  end.
+Proof. intros c ixs sps hist i k dt S h. apply split_write_coh. apply hafter_coh. exact S. Qed.
+Print Assumptions C10_split_write_history_independent.
+
+(* set_get on a SplitIndexer: a name *)
+Theorem C10_split_set_get_name : forall d i x, (i < length d)%nat ->
+  let r := split_set d (COne (Pos i)) (Some 0%nat) (SDNum x) in
+  snd r = None /\ length (fst r) = length d /\ split_get (fst r) (COne (Pos i)) (Some 0%nat) = Ok (SVNum x) /\
+  forall j, j <> i -> nthq (fst r) j = nthq d j.
+Proof. exact split_set_name. Qed.
+Print Assumptions C10_split_set_get_name.
+
+(* a scalar written to a group of a SplitIndexer goes to EVERY member unchanged (a split is not distributed by composition) *)
+Theorem C10_split_group_scalar : forall d l x, NoDup l -> Forall (fun i => (i < length d)%nat) l ->
+  let r := split_set d (COne (Grp l)) (Some 1%nat) (SDNum x) in
+  snd r = None /\ length (fst r) = length d /\
+  split_get (fst r) (COne (Grp l)) (Some 1%nat) = Ok (SVVec (repeat x (length l))) /\
+  forall j, ~ In j l -> nthq (fst r) j = nthq d j.
+Proof. exact split_set_group_scalar. Qed.
+Print Assumptions C10_split_group_scalar.
+
+Theorem C10_split_group_vec : forall d l v, NoDup l -> length l = length v -> Forall (fun i => (i < length d)%nat) l ->
+  let r := split_set d (COne (Grp l)) (Some 1%nat) (SDItems (map SI v)) in
+  snd r = None /\ length (fst r) = length d /\
+  split_get (fst r) (COne (Grp l)) (Some 1%nat) = Ok (SVVec v) /\
+  forall j, ~ In j l -> nthq (fst r) j = nthq d j.
+Proof. exact split_set_group_vec. Qed.
+Print Assumptions C10_split_group_vec.
+
+Theorem C10_split_set_get_list : forall d ts v, existsb is_grp ts = false -> NoDup (poss ts) -> length (poss ts) = length v ->
+  Forall (fun i => (i < length d)%nat) (poss ts) ->
+  let r := split_set d (CMany ts) (Some 3%nat) (SDItems (map SI v)) in
+  snd r = None /\ length (fst r) = length d /\
+  split_get (fst r) (CMany ts) (Some 3%nat) = Ok (SVVec v) /\
+  forall j, ~ In j (poss ts) -> nthq (fst r) j = nthq d j.
+Proof. exact split_set_list. Qed.
+Print Assumptions C10_split_set_get_list.
+
+Example C10_split_nonvacuous :
+  let h := hafter ex_cfg4 [] [[1 # 8; 1 # 4; 1 # 2; 3 # 4]] [HSGet 0 (KStr "G1")] in
+  classify_chem (tb ex_cfg4) (KStr "G1") = Ok (COne (Grp [0; 1]%nat), Some 1%nat) /\
+  snd (hstep fixed h (HSGet 0 (KStr "G1"))) = HSV (SVVec [1 # 8; 1 # 4]) /\
+  snd (hstep fixed h (HSSet 0 (KStr "G1") (SDNum (1 # 2)))) = HSW None [1 # 2; 1 # 2; 1 # 2; 3 # 4] /\
+  snd (hstep fixed h (HSSet 0 (KTup [KStr "C_"; KStr "G1"]) (SDItems [SI (1 # 4); SG [1; 0]]))) = HSW None [1; 0; 1 # 4; 3 # 4].
+Proof. vm_compute. repeat split; reflexivity. Qed.
+
+(* ------------------------------------------------------------------ rows by label after a multi-phase source brought new phases *)
+(* MaterialIndexer._expand_phases(other_phases), the step mix_from and copy_like share: every old label still names its old
+   row, the labels are exactly the union, and every new label names an empty row of its own *)
+Theorem C10_expand_phases_rows_by_label : forall z ps phs rows, length phs = length rows ->
+  let r := insert_phases ps phs rows z in
+  length (fst r) = length (snd r) /\
+  (forall q, In q phs -> row_of (fst r) (snd r) q = row_of phs rows q) /\
+  (forall q, In q (fst r) <-> In q ps \/ In q phs) /\
+  (forall q, In q ps -> ~ In q phs -> row_of (fst r) (snd r) q = z).
+Proof. exact insert_phases_rows. Qed.
+Print Assumptions C10_expand_phases_rows_by_label.
+
+(* X.mix_from([X, M]), M multi-phase with a phase X lacks even up to case: afterwards the labels are the union and every old
+   label that no phase of M resolves to names the row it named before *)
+Theorem C10_mix_mat_rows_by_label : forall n phs rows src q i,
+  length phs = length rows -> forallb (knows_phase phs) (map fst src) = false ->
+  In q phs -> index_of q (fst (mix_mat n phs rows src)) = Some i ->
+  (forall p v j, In (p, v) src -> pcall (fst (mix_mat n phs rows src)) p = Ok j -> j <> i) ->
+  (forall x, In x (fst (mix_mat n phs rows src)) <-> In x (map fst src) \/ In x phs) /\
+  length (fst (mix_mat n phs rows src)) = length (snd (mix_mat n phs rows src)) /\
+  row_of (fst (mix_mat n phs rows src)) (snd (mix_mat n phs rows src)) q = row_of phs rows q.
+Proof. exact mix_mat_rows_by_label. Qed.
+Print Assumptions C10_mix_mat_rows_by_label.
+
+Example C10_mix_mat_rows_nonvacuous :
+  let src := [("L", [0; 0; 3]); ("s", [0; 2; 0])] in
+  forallb (knows_phase ["g"; "l"]) (map fst src) = false /\
+  mix_mat 3 ["g"; "l"] [[1; 2; 3]; [4; 5; 6]] src = (["L"; "g"; "l"; "s"], [[0; 0; 3]; [1; 2; 3]; [4; 5; 6]; [0; 2; 0]]) /\
+  index_of "l" ["L"; "g"; "l"; "s"] = Some 2%nat /\ pcall ["L"; "g"; "l"; "s"] "L" = Ok 0%nat /\ pcall ["L"; "g"; "l"; "s"] "s" = Ok 3%nat.
+Proof. vm_compute. repeat split; reflexivity. Qed.
+
+(* ------------------------------------------------------------------ indexer[..., IDs] = data for every data form (ModelEll.v) *)
+(* on every form Model.mat_set covers, the full model of the branch (SparseArray column assignment with reduce_ndim) agrees
+   with it, so the C10_ell_* theorems above are statements about the full model too *)
+Theorem C10_ell_full_model_agrees : forall cs rows k,
+  (forall i kn x, kn = 0%nat \/ kn = 3%nat ->
+     mat_set2 cs rows (MPair None (COne (Pos i)), Some kn, false) (DNum x) k = mat_set cs rows (MPair None (COne (Pos i)), Some kn, false) (DNum x) k) /\
+  (forall ts kn x, kn = 0%nat \/ kn = 3%nat ->
+     mat_set2 cs rows (MPair None (CMany ts), Some kn, false) (DNum x) k = mat_set cs rows (MPair None (CMany ts), Some kn, false) (DNum x) k) /\
+  (forall ts kn v, kn = 0%nat \/ kn = 3%nat -> length (poss ts) = length v ->
+     mat_set2 cs rows (MPair None (CMany ts), Some kn, false) (DVec v) k = mat_set cs rows (MPair None (CMany ts), Some kn, false) (DVec v) k) /\
+  (forall l x s c p, sassoc cs s = Some c -> length l = length c ->
+     mat_set2 cs rows (MPair None (COne (Grp l)), Some 1%nat, false) (DNum x) (KTup [p; KStr s]) =
+     mat_set cs rows (MPair None (COne (Grp l)), Some 1%nat, false) (DNum x) (KTup [p; KStr s])).
+Proof.
+  intros cs rows k. split; [|split; [|split]].
+  - intros. apply ell_agrees_name; auto.
+  - intros. apply ell_agrees_list_scalar; auto.
+  - intros. apply ell_agrees_list_vec; auto.
+  - intros. eapply ell_agrees_group_scalar; eauto.
+Qed.
+Print Assumptions C10_ell_full_model_agrees.
+
+(* the form left out so far: indexer[..., name] = [one value per phase] (two or more phases): row p holds v_p at the
+   chemical's position, nothing else moves *)
+Theorem C10_ell_set_name_per_phase : forall cs rows i kn v ids, kn = 0%nat \/ kn = 3%nat ->
+  length v = length rows -> length v <> 1%nat -> Forall (row_ok i) rows ->
+  let r := ell_set cs rows (COne (Pos i)) kn (DVec v) ids in
+  snd r = None /\ length (fst r) = length rows /\
+  forall p, (p < length rows)%nat ->
+    length (nth p (fst r) []) = length (nth p rows []) /\ nthq (nth p (fst r) []) i = nthq v p /\
+    forall j, j <> i -> nthq (nth p (fst r) []) j = nthq (nth p rows []) j.
+Proof. exact ell_set_name_per_phase. Qed.
+Print Assumptions C10_ell_set_name_per_phase.
+
+(* what indexer[key] = data does -- with the (..., IDs) branch in full -- after any history with safe configuration calls
+   in between is a function of the current table, the data and the key *)
+Theorem C10_ell_write_history_independent : forall c ixs sps hist i phs rows k dt, esafe (mkhs c (mkst [] [] ixs) sps) hist ->
+  let h := eafter c ixs sps hist in
+  nth_error (sixs (hst h)) i = Some (IM phs rows) ->
+  snd (estep fixed h (ESet i k dt)) = let (r', e) := write_mat2 (hcf h) phs rows k dt in HB (BWr e r').
+Proof. exact ell_write_after_history. Qed.
+Print Assumptions C10_ell_write_history_independent.
+
+Example C10_ell_full_nonvacuous :
+  let ixs := [IM ["g"; "l"] [[1; 2; 4; 8]; [16; 32; 64; 128]]] in
+  let hist := [EOp (HOp (OGet 0 (KTup [KEll; KStr "B_"]))); EOp (HCfg (CAlias "C_" "cee"))] in
+  esafe (mkhs ex_cfg4 (mkst [] [] ixs) []) hist /\
+  Forall (row_ok 1) [[1; 2; 4; 8]; [16; 32; 64; 128]] /\
+  snd (estep fixed (eafter ex_cfg4 ixs [] hist) (ESet 0 (KTup [KEll; KStr "B_"]) (DVec [5; 7]))) = HB (BWr None [[1; 5; 4; 8]; [16; 7; 64; 128]]) /\
+  snd (estep fixed (eafter ex_cfg4 ixs [] hist) (ESet 0 (KTup [KEll; KTup [KStr "cee"; KStr "A_"]]) (DVec [5]))) = HB (BWr None [[5; 2; 5; 8]; [5; 32; 5; 128]]) /\
+  snd (estep fixed (eafter ex_cfg4 ixs [] hist) (ESet 0 (KTup [KEll; KTup [KStr "cee"; KStr "A_"]]) (DMat [[5; 6]; [7; 9]]))) = HB (BWr None [[6; 2; 5; 8]; [9; 32; 7; 128]]) /\
+  snd (estep fixed (eafter ex_cfg4 ixs [] hist) (ESet 0 (KTup [KEll; KStr "G1"]) (DVec [4; 8]))) = HB (BWr None [[4 # 2; 8 # 2; 4; 8]; [4 # 2; 8 # 2; 64; 128]]).
+Proof.
+  split; [vm_compute; repeat split; reflexivity|]. split; [repeat constructor|].
+  vm_compute. repeat split; reflexivity.
 Qed.
